@@ -78,6 +78,11 @@ impl S3PartitionStorage {
                         let mut file_buffer: BytesMut =
                             BytesMut::with_capacity(OP_RECORD_SIZE * 10);
                         for (key, value) in keys_in_patition {
+                            if value.state == ValueStatus::Deleted {
+                                // A removed key is left out of the rewritten partition, writing
+                                // it brought it back as a live key
+                                continue;
+                            }
                             log::debug!("Key: {} Value: {}", key, value.value);
                             changed_keys = changed_keys + 1;
                             let len = key.len();
